@@ -21,6 +21,12 @@ CLAIMED = {
     "C20": ("4 C20", "Each of the seven string parsers, Shape(str) and TransformKey(str) is executed on a symbolic ASCII string "
             "of every length up to the bound; z3 decides for every member that its own value parses to it and that "
             "non-members are rejected or mapped to the documented fallback."),
+    "C18": ("4 C18", "HomogeneousMatrix/TransformDict/TransformKey are executed with exact rational rotations (11 quaternions, both "
+            "signs, matrix or quaternion input) and symbolic translations/positions; the group laws and registry rules are "
+            "linear-arithmetic queries decided by z3 for all translations and positions."),
+    "C09": ("4 C09", "The APH weight and the yaw error are executed with both yaw angles (and the ego yaw) as symbolic reals over the "
+            "whole circle and both quaternion signs; the claims are linear real arithmetic with ite/floor, so z3 decides them "
+            "for every angle pair, not a grid."),
 }
 NA = {
     "C16": "dataset loading goes through the nuScenes devkit and file I/O; a symbolic stand-in for the devkit would be the "
